@@ -206,5 +206,55 @@ func TokFloat(b byte) (v float64, bits int, ok bool) { return 0, 0, false }
 // TokID identifies the stub token a byte belongs to (0 = not a token byte).
 func TokID(b byte) int { return 0 }
 
+// ---- model of *os.File handles (zap obtains files only through its sink registry's openFile seam)
+
+var nativeFiles = map[*os.File]string{}
+
+// NewFile returns a fresh file handle. Under the engine it is an opaque handle whose Write/Sync/Close
+// calls are recorded; natively it is a real temporary file (opened read-only when failWrite is set, so
+// that writes fail).
+func NewFile(name string, failWrite bool) *os.File {
+	f, err := os.CreateTemp("", "vrt-file-*")
+	if err != nil {
+		panic(err)
+	}
+	if failWrite {
+		path := f.Name()
+		f.Close()
+		f, err = os.Open(path)
+		if err != nil {
+			panic(err)
+		}
+	}
+	nativeFiles[f] = f.Name()
+	return f
+}
+
+// FileCloses is the number of Close calls the handle has seen (natively: 1 if closed, else 0).
+func FileCloses(f *os.File) int {
+	if f.Fd() == ^uintptr(0) {
+		return 1
+	}
+	return 0
+}
+
+// FileSyncs is the number of successful Sync calls (engine only; natively -1 = unknown).
+func FileSyncs(f *os.File) int { return -1 }
+
+// FileData is everything written to the handle so far.
+func FileData(f *os.File) string {
+	b, _ := os.ReadFile(nativeFiles[f])
+	return string(b)
+}
+
+// RemoveFiles deletes the temporary files behind native handles.
+func RemoveFiles() {
+	for f, p := range nativeFiles {
+		f.Close()
+		os.Remove(p)
+		delete(nativeFiles, f)
+	}
+}
+
 // SortedTags returns the tags of the current path.
 func SortedTags() []string { s := append([]string{}, tags...); sort.Strings(s); return s }
